@@ -111,6 +111,11 @@ Shapes(k, st) ==
      : s \in Sites(k)}
    \cup
    (IF k = "schemas" THEN
+     {[shape |-> "deepfragment",      \* a pointer into a non-component place of a whole-file target that is also a root component
+       u |-> U(<<Slot(W1, k, "", Conc("W", <<>>) @@ [inl |-> <<[site |-> "properties", id |-> "P"]>>]),
+                 Slot(Root, k, "Acc", Conc("Acc", <<Ch("properties", k, [path |-> Spell(Root, W1, st), frag |-> <<"#inl", "properties">>])>>)),
+                 Slot(Root, k, "Rec", RefC(RW(Root, W1, st)))>>, R(Root, Root, k, "Acc", st), k)]}
+     \cup
      UNION {
       {[shape |-> "selfcycle", site |-> s.site,
         u |-> U(<<Slot(A1, k, "X", Conc("X", <<Ch(s.site, k, R(A1, A1, k, "X", st))>>))>>, R(Root, A1, k, "X", st), k)],
@@ -132,6 +137,7 @@ QuickSlice(sh, st, e, pos) ==
    \/ (st \in {"plain", "abspath", "http"} /\ e = "file_abs")
    \/ (st \in AbsStyles /\ sh.shape \in {"direct", "child", "wholefile"} /\ e = "datapath" /\ pos = "op")
    \/ sh.shape = "otherhost_samepath"
+   \/ (sh.shape = "deepfragment" /\ e \in {"file_abs", "file_rel"})
    \/ (sh.shape \in {"child", "chain3", "diamond"} /\ e = "file_abs" /\ pos = "op")
    \/ (sh.shape \in {"direct", "child"} /\ st = "plain" /\ pos = "op")
    \/ (sh.shape \in {"direct", "chain3", "wholefile"} /\ e = "file_rel_default" /\ pos = "op")
@@ -151,7 +157,8 @@ Spec == Init /\ [][Next]_case
 RECURSIVE JoinSlashG(_)
 JoinSlashG(p) == IF p = <<>> THEN "" ELSE IF Len(p) = 1 THEN p[1] ELSE p[1] \o "/" \o JoinSlashG(Tail(p))
 RenderContent(c) == IF IsConcrete(c)
-                    THEN [id |-> c.id, ch |-> [j \in DOMAIN c.ch |-> [site |-> c.ch[j].site, kind |-> c.ch[j].kind, ref |-> RefText(c.ch[j].ref)]]]
+                    THEN [id |-> c.id, ch |-> [j \in DOMAIN c.ch |-> [site |-> c.ch[j].site, kind |-> c.ch[j].kind, ref |-> RefText(c.ch[j].ref)]],
+                          inl |-> (IF "inl" \in DOMAIN c THEN c.inl ELSE <<>>)]
                     ELSE [ref |-> RefText(c.ref)]
 Render(cs) ==
    cs @@ [files |-> [i \in DOMAIN cs.u.slots |->
